@@ -16,6 +16,7 @@ import Pandora.Gen.C15Flow
 import Pandora.Model.C15Flow
 import Pandora.Proofs.C15Flow
 import Pandora.Proofs.C15Post
+import Pandora.Proofs.C15Prep
 
 namespace Pandora.Bridge.C15Flow
 open Pandora.Model.C15 Pandora.Proofs.C15
@@ -201,5 +202,11 @@ theorem calcIndex_numeric (indexStr seg : String) (L id : Nat) (it : Iter) (i : 
   by_cases hr : 0 ≤ i ∧ i < (L : Int)
   · simp [hr]
   · simp only [hr, if_false]
+
+/-- round 6: `prepareRequest` as regenerated is the statement list `Proofs.C15.runPrep_eq` interprets into the direct reading -/
+theorem prepCode_eq : Gen.C15Flow.prepCode = prepCode := by decide
+
+/-- round 6: the min_waiting_time rule at the end of `shoot` as regenerated -/
+theorem mwtPause_eq (m spent : Int) : Gen.C15Flow.mwtPause m spent = mwtPause m spent := rfl
 
 end Pandora.Bridge.C15Flow
